@@ -141,6 +141,8 @@ type Prog struct {
 	Src    map[string][]byte // by full file name
 
 	ksaZeroKinds uint16
+	isVariant    bool
+	diskSrc      map[string][]byte
 
 	funcDecls map[string]*ast.FuncDecl
 	memo      map[string]interface{}
@@ -169,6 +171,8 @@ func relName(f string) string {
 func (b *Base) build(subs []Subst) (*Prog, error) {
 	fset := token.NewFileSet()
 	p := &Prog{Fset: fset, Src: map[string][]byte{}, funcDecls: map[string]*ast.FuncDecl{}, memo: map[string]interface{}{}}
+	p.isVariant = len(subs) > 0
+	p.diskSrc = b.Sources
 	applied := make([]bool, len(subs))
 	parse := func(files []string) ([]*ast.File, error) {
 		var out []*ast.File
